@@ -438,10 +438,15 @@ type ChainOpts struct {
 	GenVals       []sim.GenVal
 	SchnorrKey    bool
 	Mutate        func(g *sim.Genesis)
+	ShareBls      [][2]int // {a, b}: member b uses member a's BLS vote key (b must not be a genesis member: genesis demands distinct keys)
 }
 
 func NewStdChain(o ChainOpts) (*sim.Chain, *sim.BtcKey, error) {
 	kr := sim.NewKeyring(o.Seed, o.NVals, o.NMembers)
+	for _, p := range o.ShareBls {
+		a, b := kr.Members[p[0]], kr.Members[p[1]]
+		b.BlsSK, b.BlsPK, b.BlsPKH = a.BlsSK, a.BlsPK, a.BlsPKH
+	}
 	c, err := sim.NewChain(o.ChainID, kr, 0, dbm.NewMemDB())
 	if err != nil {
 		return nil, nil, err
